@@ -41,6 +41,8 @@ static void gen_json_string(tb_t *t)
 	static const char *ESC[] = { "\\n", "\\t", "\\\"", "\\\\", "\\/", "\\u00e9", "\\ud83d\\ude00", "\\u0001", "\\b", "\\u20ac", "\\r", "\\f" };
 	tb_adds(t, "\"");
 	size_t n = vh_below(&rng, 8);
+	/* rarely an escaped U+0000 (legal JSON; the builder may refuse the document, but what it accepts must make the round trip) */
+	if (vh_below(&rng, 60) == 0) tb_adds(t, vh_below(&rng, 2) ? "\\u0000" : "a\\u0000b");
 	for (size_t i = 0; i < n; i++) {
 		if (vh_below(&rng, 3) == 0) tb_adds(t, ESC[vh_below(&rng, 12)]);
 		else gen_raw_string(t, 4);
